@@ -259,12 +259,36 @@ Definition const_ok (ps : list sprop) (kv : string * string) : bool :=
   | None => false
   end.
 
-(* one metamodel attribute: it is written, under the mapping's name, never as null, in a valid form *)
+(* every present value of the kind that is not the empty collection is truthy in Python *)
+Definition kind_truthy_present (k : skind) : bool :=
+  match k with
+  | KStr f => (1 <=? f_min f)%N
+  | KEnum ms => negb (smem "" ms)
+  | KObj _ _ | KList _ _ | KEnumSet _ => true
+  | _ => false
+  end.
+(* the condition never drops a present value: only None, the empty collection, or the attribute's metamodel default
+   may be left out (a falsy-but-present typed value, False, 0, "" must be written) *)
+Definition present_ok (a : sattr) (c : wcond) : bool :=
+  match c with
+  | WAlways | WNotNone | WNonEmpty => true
+  | WTruthy | WTruthyUnder _ => kind_truthy_present (a_kind a)
+  | WEquals m =>
+    match a_kind a, a_default a with
+    | KEnum ms, Some (VStr d) => forallb (fun x => String.eqb x m || String.eqb x d) ms
+    | _, _ => false end
+  end.
+Definition simple_cond (c : wcond) : bool :=
+  match c with WAlways | WNotNone | WTruthy | WNonEmpty => true | _ => false end.
+
+(* one metamodel attribute: it is written, under the mapping's name, never as null, never dropped while present, in a
+   valid form *)
 Definition attr_ok (c : crules) (ps : list sprop) (a : sattr) : bool :=
   match find_w (a_name a) (c_w c) with
   | None => false
   | Some w =>
     String.eqb (w_member w) (a_member a) &&
+    present_ok a (w_cond w) &&
     (negb (a_opt a) || cond_drops_none (w_cond w)) &&
     match pfind (w_member w) ps with
     | Some p => tyconf (a_kind a) (cond_nonempty (w_cond w)) (w_enc w) (p_ty p)
